@@ -25,10 +25,23 @@ TRUSTED = [
 SCHEDS = [dict(scheduler="synchronous"), dict(scheduler="threads", workers=1), dict(scheduler="threads", workers=2),
           dict(scheduler="threads", workers=4), dict(scheduler="threads", workers=16)]
 PROC = dict(scheduler="processes", workers=2)
+# what a worker PROCESS receives, without starting processes: dask's process-pool scheduler (every task serialised with
+# cloudpickle and unpickled where it executes) driven by an in-process executor; and the caller's detector + pipeline
+# sent through pickle / cloudpickle before the parallel run.  Regular members of the scheduler dimension.
+PICKLED = [dict(scheduler="processes", pool="sync"), dict(scheduler="processes", pool="threads", workers=4),
+           dict(scheduler="synchronous", pre="pickle"), dict(scheduler="threads", workers=2, pre="cloudpickle")]
+ALL_SCHEDS = SCHEDS + PICKLED
 
 
 def sname(s):
-    return s["scheduler"] + (str(s["workers"]) if s.get("workers") else "")
+    w = str(s["workers"]) if s.get("workers") else ""
+    if s.get("pool"):
+        return "pickled-" + s["pool"] + w
+    return s["scheduler"] + w + ("+" + s["pre"] if s.get("pre") else "")
+
+
+def is_pickled(s) -> bool:
+    return s["scheduler"] == "processes" or bool(s.get("pre"))
 
 
 # ------------------------------------------------------------------------------------------ cases
@@ -118,7 +131,7 @@ def partitions(n):
     return out
 
 
-def gen_encs(r, mode, pattern, vector="mix", share=True):
+def gen_encs(r, mode, pattern, vector="mix", share=True, decoys=None):
     """parameters whose SHORT names collide according to `pattern` (same group = same argument name, in different
     model instances); every parameter's received value is recorded separately by the probe instance that owns it"""
     n = len(pattern)
@@ -186,11 +199,27 @@ def gen_encs(r, mode, pattern, vector="mix", share=True):
             case["defaults"][tslot] = 1 + case["defaults"][tslot] % 12
     if tslot is not None:
         case["detector_key"] = tslot
+    if decoys is not None:
+        # the pipeline in execution order [ident, enabled, group]: the instances that own slots (shuffled), `decoys`
+        # instances that are SWITCHED OFF (any group, any position) and sometimes one more that is switched on
+        owners = sorted({j for j, _ in layout})
+        r.shuffle(owners)
+        plan = [[j, True, 1] for j in owners]
+        free = [j for j in range(12) if j not in owners]
+        r.shuffle(free)
+        for _ in range(decoys):
+            plan.insert(r.randrange(len(plan) + 1), [free.pop(), False, r.choice([0, 1, 1, 2])])
+        if r.random() < 0.35:
+            plan.insert(r.randrange(len(plan) + 1), [free.pop(), True, r.choice([0, 1, 2])])
+        plan.sort(key=lambda e: e[2])
+        case["pipe"] = plan
     return case
 
 
-def pick_scheds(r, k):
+def pick_scheds(r, k, pickled=0):
+    """k of the in-memory schedulers + `pickled` of the pickling ones"""
     s = [SCHEDS[i] for i in sorted(r.sample(range(len(SCHEDS)), k))]
+    s += [PICKLED[i] for i in sorted(r.sample(range(len(PICKLED)), pickled))]
     return s
 
 
@@ -225,7 +254,7 @@ def gen_cases(ctx: Ctx):
             r.choice(["product", "product", "custom", "sequential"]), r.randrange(1, 4), r.choice(["", "", "dup", "one_list"]))
         k += 1
         c = gen_enc(r, mode, npar, fl)
-        c["scheds"] = pick_scheds(r, 2 if ctx.quick else 3)
+        c["scheds"] = pick_scheds(r, 2 if ctx.quick else 3, pickled=(1 if k % 2 == 0 else 0))
         c["outputs"] = (k % 3 == 0)
         cases.append(c)
     # parameters whose short names collide (dimension names '<model>.<argument>'): every position pattern
@@ -239,8 +268,11 @@ def gen_cases(ctx: Ctx):
             if ctx.quick and not (mi == (i + rot) % 3 or (collide and len(pat) == 3 and mi == (i + rot + 1) % 3)):
                 continue
             for rep in range(1 if ctx.quick else 2):
-                c = gen_encs(r, mode, pat, vector=("mix" if rep == 0 else "all"))
-                c["scheds"] = pick_scheds(r, 1 if ctx.quick else 2)
+                # most pipelines also hold models that are SWITCHED OFF (and an execution trace): what a worker receives
+                # must not execute them -- under the in-memory schedulers and under the pickling ones
+                c = gen_encs(r, mode, pat, vector=("mix" if rep == 0 else "all"),
+                             decoys=(None if (i + mi + rep) % 5 == 4 else r.choice([0, 1, 1, 2])))
+                c["scheds"] = pick_scheds(r, 1 if ctx.quick else 2, pickled=(1 if ctx.quick else 2))
                 c["outputs"] = ((i + mi + rep) % 3 == 0)
                 cases.append(c)
     if not ctx.quick:
@@ -254,13 +286,15 @@ def gen_cases(ctx: Ctx):
                                   sleep_scale=0.02, sleep_mult=r.randrange(1, 5),
                                   scheds=[dict(scheduler="threads", workers=4)]))
     # process pool (slow to start): a few cases
-    for j in range(ctx.budget(2, 8)):
+    for j in range(ctx.budget(1, 6)):
         c = gen_enc(r, ["product", "custom"][j % 2], 2, "")
         c["scheds"] = [PROC]
         c["outputs"] = (j % 2 == 0)
         cases.append(c)
-    for j in range(ctx.budget(1, 6)):
-        c = gen_encs(r, modes3[(j + rot) % 3], r.choice([q for q in pats if len(q) == 3 and len(set(q)) == 2]))
+    # ... every one of these with a model that is switched off: a real worker process must not execute it
+    for j in range(ctx.budget(3, 9)):
+        c = gen_encs(r, modes3[(j + rot) % 3], r.choice([q for q in pats if len(q) == (3 if j % 2 == 0 else 2)]),
+                     decoys=1 + j % 2)
         c["scheds"] = [PROC]
         c["outputs"] = (j % 2 == 1)
         cases.append(c)
@@ -284,10 +318,11 @@ def gen_cases(ctx: Ctx):
     for j in range(ctx.budget(3, 10)):
         cases.append(dict(kind="islands", n=r.randrange(2, 5), pop=r.randrange(7, 10), seed=r.randrange(1, 10 ** 6),
                           scale=0.002, bfe=True, chunk=r.choice([None, 1, 2, 3]), evolve=True, generations=2,
-                          scheds=[SCHEDS[0], dict(scheduler="threads", workers=[2, 4, 16][j % 3])]))
+                          scheds=[SCHEDS[0], dict(scheduler="threads", workers=[2, 4, 16][j % 3])]
+                          + ([PICKLED[j % 2]] if j % 3 != 2 else [])))
     for j in range(ctx.budget(3, 10)):
         cases.append(dict(kind="bfe", n=r.randrange(3, 12), seed=r.randrange(1, 10 ** 6),
-                          chunk=r.choice([None, 1, 2, 3, 5]), scale=0.003, scheds=pick_scheds(r, 2)))
+                          chunk=r.choice([None, 1, 2, 3, 5]), scale=0.003, scheds=pick_scheds(r, 2) + [PICKLED[j % 2]]))
     return cases
 
 
@@ -353,7 +388,7 @@ def expand(case, obs):
         s = s + [dict(label=[-1], data=[seq["leak"]], mem=0)]
     for sched, d in zip(case["scheds"], obs["dask"]):
         if "raised" in d:
-            out.append((dict(case=case, sched=sname(sched)), s, None, None, d))
+            out.append((dict(case=case, sched=sname(sched), pickled=is_pickled(sched)), s, None, None, d))
             continue
         cells = list(d["cells"])
         if case["kind"] == "draw":
@@ -361,7 +396,7 @@ def expand(case, obs):
         files = None
         if "files" in d:
             files = [(f["index"], f["data"]) for f in d["files"]]
-        out.append((dict(case=case, sched=sname(sched)), s, (d["shape"], cells), files, d))
+        out.append((dict(case=case, sched=sname(sched), pickled=is_pickled(sched)), s, (d["shape"], cells), files, d))
     return out
 
 
@@ -375,7 +410,15 @@ def emit_case(sub) -> str:
         dk = "(Some (" + core.clist(core.cnat(n) for n in p[0]) + ", " + core.clist(ccell(c) for c in p[1]) + "))"
     fl = "None" if files is None else "(Some " + core.clist(
         f"({core.cnat(i) if 0 <= i < 5000 else '4999%nat'}, {cparams(d)})" for i, d in files) + ")"
-    return (f"(mkCase {cmode(case)} {core.cbool(case['kind'] in ('enc', 'encs'))} {seq} {dk} {fl})")
+    return (f"(mkCase {cmode(case)} {core.cbool(case['kind'] in ('enc', 'encs'))} {seq} {dk} {fl} {cpipe(desc)})")
+
+
+def cpipe(desc) -> str:
+    case = desc["case"]
+    if case["kind"] != "encs" or not case.get("pipe"):
+        return "None"
+    ms = core.clist(f"(mkMI {core.cz(int(j))} {core.cbool(bool(en))})" for j, en, _ in case["pipe"])
+    return f"(Some ({ms}, {core.cbool(bool(desc.get('pickled')))}))"
 
 
 def emit_file(subs) -> str:
@@ -383,7 +426,7 @@ def emit_file(subs) -> str:
     return ("From Coq Require Import ZArith List.\nFrom PyxelV Require Import Model.Parallel.\n"
             "From PyxelGen Require Import Gen_C07.\nImport ListNotations.\n"
             f"Definition cases : list par_case := [\n  {body}\n].\n"
-            "Eval vm_compute in mismatches_cfg src_cfg cases.\nEval vm_compute in violations cases.\n")
+            "Eval vm_compute in mismatches_cfg src_cfg src_pickle_hooks cases.\nEval vm_compute in violations cases.\n")
 
 
 # ------------------------------------------------------------------------------------------ classification
@@ -416,6 +459,10 @@ def classify(sub, is_mismatch):
     sig = dict(clause="params_agree", mode=mode, **{"class": cls})
     if cls == "other":
         sig["scheduler"] = sched
+        if desc.get("pickled"):
+            sig["tasks_pickled"] = True
+        if case.get("pipe"):
+            sig["disabled_models"] = sum(1 for _, en, _ in case["pipe"] if not en)
         if kind == "encs":
             sig["short_names"] = "collide" if len(set(case["pattern"])) < len(case["pattern"]) else "distinct"
         if files is not None and s is not None and p is not None:
@@ -440,7 +487,14 @@ def to_violation(sub, is_mismatch) -> Violation:
 
 
 def correspondence(ctx: Ctx, cases, tag="c"):
-    obs = core.run_driver(ctx, "c07", cases, workers=8, chunk=max(1, (len(cases) + 23) // 24), timeout=1500)
+    # neighbours in the case list cost alike (process pools, islands): deal them out over the driver chunks
+    nchunk = 24
+    order = sorted(range(len(cases)), key=lambda i: (i % nchunk, i))
+    res = core.run_driver(ctx, "c07", [cases[i] for i in order], workers=8, chunk=max(1, (len(cases) + nchunk - 1) // nchunk),
+                          timeout=1500)
+    obs = [None] * len(cases)
+    for i, o in zip(order, res):
+        obs[i] = o
     subs = []
     for c, o in zip(cases, obs):
         if "crash" in o or "driver_error" in o:
@@ -496,6 +550,13 @@ def account(ctx: Ctx, subs):
             keys = [f"m{j}.{a}" for j, a in c["layout"]]
             ctx.dist("keys listed in alphabetical order", keys == sorted(keys))
             ctx.dist("one key is a detector setting", "detector_key" in c)
+            plan = c.get("pipe")
+            ctx.dist("models switched off in the pipeline", "no trace" if plan is None else sum(1 for _, en, _ in plan if not en))
+            if plan is not None:
+                ctx.dist("switched-off model x tasks pickled",
+                         f"{'off>=1' if any(not en for _, en, _ in plan) else 'off=0'}/{'pickled' if desc.get('pickled') else 'in-memory'}")
+                ctx.dist("groups holding probe instances", len({g for _, _, g in plan}))
+        ctx.dist("tasks pickled", bool(desc.get("pickled")))
         if c["kind"] in ("enc", "encs", "draw"):
             ctx.dist("mode/nparams", f"{c['mode']}/{len(c['params'])}")
             ctx.dist("outputs", bool(files is not None))
@@ -591,6 +652,14 @@ def search(ctx: Ctx):
             c["scheds"] = [SCHEDS[0]]
             c["outputs"] = (mode == "product")
             cases.append(c)
+    # what a worker receives: pipelines with models that are switched off (every group, 1..3 of them), every pickling
+    # member of the scheduler dimension
+    for pat in [q for n in (1, 2, 3) for q in partitions(n)]:
+        for mode in ("product", "custom", "sequential"):
+            c = gen_encs(r, mode, pat, vector="mix", decoys=1 + (len(cases) % 3))
+            c["scheds"] = [SCHEDS[0]] + PICKLED
+            c["outputs"] = (mode == "custom")
+            cases.append(c)
     # the inputs of the repaired defects (a regression is reported with a concrete input)
     cases += corpus_cases()
     subs, mism, viol = correspondence(ctx, cases, tag="s")
@@ -608,7 +677,8 @@ def replay(ctx: Ctx, rp: dict) -> int:
     c = dict(case["case"])
     want = case.get("sched")
     if "scheds" in c:
-        c["scheds"] = [s for s in c["scheds"] if sname(s) == want] or c["scheds"]
+        c["scheds"] = [s for s in c["scheds"] if sname(s) == want] or [s for s in ALL_SCHEDS + [PROC] if sname(s) == want] \
+            or c["scheds"]
     obs = core.run_driver(ctx, "c07", [c], workers=1)[0]
     print("case:", json.dumps(c)[:1500])
     print("implementation now returns:", json.dumps(obs, default=str)[:3000])
